@@ -289,7 +289,7 @@ func relRef(from, to string) string {
 
 var BundleTargets = []string{"localDef", "remoteDef", "remoteChain", "remoteRecursive", "remoteCrossFileCycle", "remoteSiblingCircular", "remoteSameNameDocs", "selfRecursive", "mutualRecursive", "arrayOfSelf", "mapOfSelf",
 	"anonProperty", "anonItems", "anonAllOf", "anonAdditionalProperties", "anonSharedParam", "anonSharedResponse",
-	"inlineObject", "inlineTuple", "inlineAllOf"}
+	"inlineObject", "inlineTuple", "inlineAllOf", "inlineAllOfMap", "inlineObjectMap", "inlineTupleExtra"}
 
 // InlineLeaf returns, for the "inline*" target kinds, the complex schema planted in place of a $ref (nil otherwise).
 func (b *Bundle) InlineLeaf(kind string) jx.Obj {
@@ -300,6 +300,19 @@ func (b *Bundle) InlineLeaf(kind string) jx.Obj {
 		return jx.Obj{"type": "array", "description": b.lbl("itup"), "items": jx.Arr{jx.Obj{"type": "string"}, b.Obj()}}
 	case "inlineAllOf":
 		return jx.Obj{"description": b.lbl("iall"), "allOf": jx.Arr{b.Obj(), jx.Obj{"$ref": b.Target("localDef", "")}}}
+	case "inlineAllOfMap":
+		// a composition that also allows additional properties and has no property of its own
+		ap := any(true)
+		if Chance(b.rng, 60) {
+			ap = jx.Obj{"type": "string"}
+		}
+		return jx.Obj{"description": b.lbl("iallm"), "allOf": jx.Arr{jx.Obj{"$ref": b.Target("localDef", "")}}, "additionalProperties": ap}
+	case "inlineObjectMap":
+		o := b.Obj()
+		o["additionalProperties"] = jx.Obj{"type": "integer"}
+		return o
+	case "inlineTupleExtra":
+		return jx.Obj{"type": "array", "description": b.lbl("itupx"), "items": jx.Arr{jx.Obj{"type": "string"}, b.Obj()}, "additionalItems": jx.Obj{"type": "integer"}}
 	}
 	return nil
 }
